@@ -161,7 +161,71 @@ def m2_verify(S):
     S.witness(ctx, ob, "reach_accept_multi_block", pre + [ok], T.and_(T.gt(count, 3), T.eq(s_n, e_n)))
 
 
-OBLIGATIONS = [m1_merge, m2_verify]
+def m3_verifiable_header(S):
+    """VerifiableHeader::is_valid: after MMR activation the extension must begin with calc_mmr_hash(parent_chain_root) (genesis:
+    default root), and in every case the header's extra hash must equal ExtraHashView(uncles_hash, H(extension)).extra_hash()"""
+    ob = "C19.m3"
+    ctx = S.ctx()
+    ctx.uninterpreted_unknown_calls = True
+    ep = ctx.int("hdr.epoch", "u64"); act = ctx.int("activation_epoch", "u64")
+    gen = ctx.bool("hdr.is_genesis"); has_ext = ctx.bool("has_extension"); root_default = ctx.bool("root_is_default")
+    starts = ctx.bool("extension_starts_with_root_hash"); eq_extra = ctx.bool("extra_hash_equal")
+    obs = {"starts_with": [], "eq": [], "extra_new": []}
+
+    def nm(ex, v):
+        v = deref(ex, v)
+        return getattr(v, "name", None) or type(v).__name__
+
+    def starts_with(ex, c, a, d):
+        obs["starts_with"].append((nm(ex, a[0]), nm(ex, a[1])))
+        return BoolV(starts.t)
+
+    def b32eq(ex, c, a, d):
+        obs["eq"].append((nm(ex, a[0]), nm(ex, a[1])))
+        return BoolV(eq_extra.t)
+
+    def extra_new(ex, c, a, d):
+        v = deref(ex, a[1])
+        inner = getattr(v.payload(1)[0], "name", "?") if isinstance(v, EnumV) and v.payload(1) else None
+        obs["extra_new"].append((nm(ex, a[0]), v.disc if isinstance(v, EnumV) else "?", inner))
+        return OpaqueV("extra_view", d)
+
+    ctx.env = [
+        (E.rx(r"VerifiableHeader::header$"), lambda ex, c, a, d: OpaqueV("hdr", "HeaderView")),
+        (E.rx(r"HeaderView::epoch$"), lambda ex, c, a, d: AggV((ep,), "EpochNumberWithFraction")),
+        (E.rx(r"HeaderView::is_genesis$"), lambda ex, c, a, d: BoolV(gen.t)),
+        (E.rx(r"HeaderView::extra_hash$"), lambda ex, c, a, d: OpaqueV("hdr.extra_hash", d)),
+        (E.rx(r"VerifiableHeader::parent_chain_root$"), lambda ex, c, a, d: OpaqueV("parent_root", d)),
+        (E.rx(r"VerifiableHeader::uncles_hash$"), lambda ex, c, a, d: OpaqueV("uncles_hash", d)),
+        (E.rx(r"VerifiableHeader::extension$"), lambda ex, c, a, d: mk_option(has_ext.t, OpaqueV("extension", "Bytes"), d)),
+        (E.rx(r"HeaderDigest>::is_default$"), lambda ex, c, a, d: BoolV(root_default.t)),
+        (E.rx(r"calc_mmr_hash$"), lambda ex, c, a, d: OpaqueV("mmr_hash(" + nm(ex, a[0]) + ")", d)),
+        (E.rx(r"Bytes::raw_data$"), lambda ex, c, a, d: OpaqueV("raw(" + nm(ex, a[0]) + ")", d)),
+        (E.rx(r"calc_raw_data_hash$"), lambda ex, c, a, d: OpaqueV("H(raw(" + nm(ex, a[0]) + "))", d)),
+        (E.rx(r"as Deref>::deref$|Entity>::as_slice$"), lambda ex, c, a, d: a[0]),
+        (E.rx(r"impl \[u8\]>::starts_with$"), starts_with),
+        (E.rx(r"Byte32 as PartialEq>::eq$"), b32eq),
+        (E.rx(r"^ExtraHashView::new$"), extra_new),
+        (E.rx(r"^ExtraHashView::extra_hash$"), lambda ex, c, a, d: OpaqueV("extra_hash(" + nm(ex, a[0]) + ")", d)),
+    ]
+    fn = S.fn("VerifiableHeader::is_valid")
+    ps = S.run(ctx, fn, [ctx.ref_to(OpaqueV("vh", "VerifiableHeader")), act])
+    pre = [T.lt(act.t, 1 << 24)]
+    S.prove(ctx, ob, "no_panic", pre, T.not_(cond_of(panics(ps))))
+    valid = merged(ps, as_bool)
+    en, ei, el = T.emod(ep.t, 1 << 24), T.emod(T.ediv(ep.t, 1 << 24), 1 << 16), T.emod(T.ediv(ep.t, 1 << 40), 1 << 16)
+    # epoch > (activation, 0/1) in exact fraction order
+    after = T.or_(T.gt(en, act.t), T.and_(T.eq(en, act.t), T.gt(T.mul(ei, 1), T.mul(0, el))))
+    root_ok = T.ite(gen.t, root_default.t, T.and_(has_ext.t, starts.t))
+    S.prove(ctx, ob, "valid_iff_root_commitment_after_activation_and_extra_hash_matches", pre, T.iff(valid, T.and_(T.implies(after, root_ok), eq_extra.t)), timeout_s=120)
+    flow = (all(x == ("raw(extension)", "mmr_hash(parent_root)") for x in obs["starts_with"]) and obs["starts_with"]
+            and all(x == ("extra_hash(extra_view)", "hdr.extra_hash") for x in obs["eq"]) and obs["eq"]
+            and all(u == "uncles_hash" and ((d == 1 and i == "H(raw(extension))") or d == 0) for (u, d, i) in obs["extra_new"]) and obs["extra_new"])
+    S.prove(ctx, ob, "compares_extension_prefix_with_mmr_hash_of_parent_root_and_extra_hash_of_uncles_and_extension", pre, bool(flow))
+    S.witness(ctx, ob, "reach_valid_after_activation", pre, T.and_(valid, after, T.not_(gen.t)))
+
+
+OBLIGATIONS = [m1_merge, m2_verify, m3_verifiable_header]
 
 ENGINE = "M"
 LEVEL = "other"
